@@ -359,6 +359,10 @@ def run(tier, out):
     rng = random.Random(core.seed())
     wd = core.workdir(PROP)
     core.build_harness("h_runtime", "dlruntime")
+    # component level: the per-key relief queue behind MapBackpressure (MapQueue.tla replayed on the real MapOperationQueue);
+    # the runtime-level scripts rarely build the backlogs (clear + several keys behind a stalled socket) that exercise it
+    from checks import k_mapqueue
+    k_mapqueue.run_k(tier, out, os.path.join(wd, "kmapq"))
     ctx = Ctx(out, wd, tier)
 
     # 0. which listed findings does this tree have?
@@ -479,6 +483,9 @@ def replay(path, out):
     wd = core.workdir(PROP + "_replay")
     core.build_harness("h_runtime", "dlruntime")
     obj = json.load(open(path))["replay"]
+    if str(obj.get("component", "")).lower().startswith(("mapq", "takedrop")):
+        from checks import k_mapqueue
+        return k_mapqueue.replay(path, out)
     case = obj["case"]
     res = rp.run_cases("h_runtime", "dlruntime", [strip(case)], wd, tag="replay", strip=False)[0]
     if res.get("panic") is not None:
